@@ -48,7 +48,7 @@ pub mod verif_events {
     pub fn take() -> String {
         LOG.with(|l| l.borrow_mut().take().unwrap_or_default())
     }
-    pub(super) fn ev(s: &str) {
+    pub(crate) fn ev(s: &str) {
         LOG.with(|l| {
             if let Some(b) = l.borrow_mut().as_mut() {
                 b.push_str(s);
